@@ -5,6 +5,10 @@ import numpy as np
 from .. import utils
 from .. import config
 
+def _plain_row(row):
+    """An index row as a tuple of Python ints, whatever container (list, tuple, numpy row) and integer type it came in."""
+    return tuple(int(x) for x in row)
+
 class RawMeshData:
     """
     A base container class to store all the data relative to a mesh.
@@ -167,7 +171,7 @@ class RawMeshData:
             for ie in self.id_edges:
                 a,b = self.edges[ie]
                 if is_valid(a,b):
-                    new_edges.append(utils.keyify(a,b))
+                    new_edges.append(utils.keyify(int(a),int(b)))
                     for name in new_attrs:
                         if isinstance(old_attrs[name], ArrayAttribute) or ie in old_attrs[name]._data: # a dense attribute holds a value for every edge; keep sparsity of a sparse one
                             new_attrs[name][n] = old_attrs[name][ie]
@@ -175,10 +179,12 @@ class RawMeshData:
             self.edges = new_edges
         else:
             for ie in self.id_edges:
-                self.edges[ie] = utils.keyify(self.edges[ie])
+                a,b = self.edges[ie]
+                self.edges[ie] = utils.keyify(int(a),int(b))
 
     def _prepare_faces(self):
-        pass
+        for iF in self.id_faces:
+            self.faces[iF] = _plain_row(self.faces[iF]) # numpy rows / numpy integers do not leak into the mesh
 
     def _generate_face_corners(self):
         nc = len(self.face_corners)
@@ -192,7 +198,8 @@ class RawMeshData:
                     self.face_corners.append(v,iF)
 
     def _prepare_cells(self):
-        pass
+        for iC in self.id_cells:
+            self.cells[iC] = _plain_row(self.cells[iC])
 
     def _generate_cell_corners(self):
         nce = len(self.cell_corners._elem)
